@@ -95,6 +95,8 @@ def run_history(spec):
     t00 = time.time()
     scratch = tempfile.mkdtemp(prefix='c10_')
     old_sw = sys.getswitchinterval()
+    old_tmp = tempfile.tempdir
+    tempfile.tempdir = scratch          # malt's loader writes its generated modules to the temp directory
     try:
         world = W.World(spec['seed'], scratch)
         shared, private, progs = build_plan(spec, world)
@@ -156,6 +158,7 @@ def run_history(spec):
         return package(spec, rec, verdicts, errors, time.time() - t00)
     finally:
         sys.setswitchinterval(old_sw)
+        tempfile.tempdir = old_tmp
         shutil.rmtree(scratch, ignore_errors=True)
 
 
@@ -227,6 +230,8 @@ def package(spec, rec, verdicts, errors, wall):
 def run_witness(name):
     """Single scenarios on the real code; same recording as the random histories."""
     scratch = tempfile.mkdtemp(prefix='c10w_')
+    old_tmp = tempfile.tempdir
+    tempfile.tempdir = scratch
     try:
         malt, api, converter, transpiler, _, _ = W._malt()
         world = W.World(7, scratch)
@@ -301,6 +306,7 @@ def run_witness(name):
         res['extra'] = extra
         return res
     finally:
+        tempfile.tempdir = old_tmp
         shutil.rmtree(scratch, ignore_errors=True)
 
 
